@@ -53,11 +53,30 @@ Theorem e2e_nat_return_agrees :
   forall hash sh, sreach hash sh ->
     NoDup (map s_tok (sh_socks sh)) /\ NoDup (flows_of (sh_socks sh)) /\
     (forall s, In s (sh_socks sh) ->
-       exists f, sget (m_flows (sh_mgr sh)) (s_flow s) = Some f /\ f_inc f = s_inc s /\ f_backend_addr f <> None) /\
+       exists f, sget (m_flows (sh_mgr sh)) (s_flow s) = Some f /\ f_inc f = s_inc s /\
+                 f_backend_addr f = Some (s_backend s)) /\
     (forall k id, tget (sh_key2f sh) k = Some id ->
        exists s, In s (sh_socks sh) /\ s_flow s = id /\ s_key s = Some k) /\
     sh_opened sh = sh_closed sh + length (sh_socks sh).
 Proof. intros hash sh H. destruct (sreach_GQ hash sh H). apply quiescent_sockets; assumption. Qed.
+
+(** [e2e_sticky], socket level: the (connected) upstream socket of a flow points at
+    exactly the backend address the manager holds for that flow -- which, by [sticky]
+    and [sticky_destination_is_the_resolved_address] of Props.v, is the one address
+    every datagram of the incarnation is addressed to -- and a flow has one socket.
+    (That [on_send_to_backend] picks the socket of the datagram's own flow through
+    [in_flight_flow] / the shadow table is covered by the correspondence run only:
+    the socket each delivered datagram arrived on is compared with the model.) *)
+Theorem e2e_sticky_socket_is_connected_to_the_flows_backend :
+  forall hash sh s1 s2, sreach hash sh -> In s1 (sh_socks sh) -> In s2 (sh_socks sh) ->
+    (exists f, sget (m_flows (sh_mgr sh)) (s_flow s1) = Some f /\ f_backend_addr f = Some (s_backend s1)) /\
+    (s_flow s1 = s_flow s2 -> s1 = s2).
+Proof.
+  intros hash sh s1 s2 H H1 H2. destruct (sreach_GQ hash sh H) as (HG & Hq).
+  destruct (quiescent_sockets sh HG Hq) as (_ & Hfl & Hlive & _). split.
+  - destruct (Hlive s1 H1) as (f & Hf & _ & Hb). eauto.
+  - intros E. eapply flow_unique; eauto.
+Qed.
 
 (** [e2e_isolated]: a datagram read from the upstream socket [tok] is handed to the
     manager for the flow that socket was opened for; what the manager then sends to
